@@ -1,0 +1,44 @@
+//go:build verif
+
+package shutterservice
+
+import (
+	"context"
+
+	"github.com/jackc/pgx/v4/pgxpool"
+
+	"github.com/shutter-network/rolling-shutter/rolling-shutter/keyper/epochkghandler"
+	"github.com/shutter-network/rolling-shutter/rolling-shutter/medley/broker"
+	syncevent "github.com/shutter-network/rolling-shutter/rolling-shutter/medley/chainsync/event"
+	"github.com/shutter-network/rolling-shutter/rolling-shutter/p2p"
+)
+
+// Verification hooks (build tag verif): constructors for types with unexported fields.
+
+func VerifNewHandlers(dbpool *pgxpool.Pool) []p2p.MessageHandler {
+	return []p2p.MessageHandler{&DecryptionKeySharesHandler{dbpool}, &DecryptionKeysHandler{dbpool}}
+}
+
+func VerifNewKeyper(
+	config *Config,
+	dbpool *pgxpool.Pool,
+	trigger chan *broker.Event[*epochkghandler.DecryptionTrigger],
+	registrySyncer *RegistrySyncer,
+	multiEventSyncer *MultiEventSyncer,
+) *Keyper {
+	return &Keyper{
+		config:                   config,
+		dbpool:                   dbpool,
+		decryptionTriggerChannel: trigger,
+		registrySyncer:           registrySyncer,
+		multiEventSyncer:         multiEventSyncer,
+	}
+}
+
+func (kpr *Keyper) VerifProcessNewBlock(ctx context.Context, ev *syncevent.LatestBlock) error {
+	return kpr.processNewBlock(ctx, ev)
+}
+
+func (kpr *Keyper) VerifMaybeTriggerDecryption(ctx context.Context, ev *syncevent.LatestBlock) error {
+	return kpr.maybeTriggerDecryption(ctx, ev)
+}
